@@ -103,6 +103,8 @@ func HarvestedDoc(r *Rand) (GenDoc, bool) {
 // from the tree under check, a change that starts to care about a new name
 // brings that name into the workload by itself.
 var (
+	// VocabNumbers: integer literals of the library's source (thresholds, limits, capacities, sizes)
+	VocabNumbers []int
 	VocabNames  []string // plausible attribute / class / id / tag names
 	VocabColon  []string // tokens containing ':' (meta properties, schemes)
 	VocabValues []string // any short token, usable as attribute value or text
@@ -110,6 +112,7 @@ var (
 
 func HarvestVocabulary(root string) int {
 	names, colon, values := map[string]bool{}, map[string]bool{}, map[string]bool{}
+	nums := map[int]bool{}
 	add := func(tok string) {
 		tok = strings.TrimSpace(tok)
 		if len(tok) < 2 || len(tok) > 40 {
@@ -159,6 +162,12 @@ func HarvestVocabulary(root string) int {
 				return false
 			}
 			bl, ok := n.(*ast.BasicLit)
+			if ok && bl.Kind == token.INT {
+				if v, err := strconv.ParseInt(bl.Value, 0, 64); err == nil && v >= 2 && v <= 200000 {
+					nums[int(v)] = true
+				}
+				return true
+			}
 			if !ok || bl.Kind != token.STRING {
 				return true
 			}
@@ -177,6 +186,11 @@ func HarvestVocabulary(root string) int {
 		})
 		return nil
 	})
+	VocabNumbers = VocabNumbers[:0]
+	for v := range nums {
+		VocabNumbers = append(VocabNumbers, v)
+	}
+	sort.Ints(VocabNumbers)
 	VocabNames, VocabColon, VocabValues = keys(names), keys(colon), keys(values)
 	return len(VocabValues)
 }
